@@ -596,17 +596,28 @@ pub fn c16_on_recovered(w: &mut crate::world::World, obs: &Obs) -> Option<String
 /// (identical bit flips, equal-length zero fills). A checksum that is linear over independently summed
 /// lanes / words does not see such pairs.
 pub fn correlated_damage(p: &Parsed, rng: &mut Rng) -> Vec<DamageOp> {
-    let big: Vec<&crate::walparse::Frame> = p.frames.iter().filter(|f| f.len >= 64).collect();
+    let big: Vec<&crate::walparse::Frame> = p.frames.iter().filter(|f| f.len >= 16).collect();
     if big.is_empty() {
         return Vec::new();
     }
     let fr = *rng.pick(&big);
     let mut dists: Vec<usize> = vec![1, 2, 4, 8, 16, 64, 256, 512, 1024, 2048, 4096, 8192, 16384];
     dists.retain(|d| *d < fr.len);
+    if dists.is_empty() {
+        return Vec::new();
+    }
     let dist = *rng.pick(&dists);
     let base = fr.off + HDR + rng.usize_below(fr.len - dist);
     let file = fr.file;
-    match rng.below(3) {
+    match rng.below(4) {
+        // the checksum field itself set to a "neutral" value (all zero / all ones), plus an altered payload byte
+        3 => {
+            let fill = *rng.pick(&[0u8, 0, 0xFF]);
+            vec![
+                DamageOp::Bytes { file, off: fr.off, data: vec![fill; 4] },
+                DamageOp::Flip { file, off: fr.off + HDR + rng.usize_below(fr.len), bit: rng.below(8) as u8 },
+            ]
+        }
         0 => {
             let bit = rng.below(8) as u8;
             let mut v = vec![DamageOp::Flip { file, off: base, bit }, DamageOp::Flip { file, off: base + dist, bit }];
